@@ -71,6 +71,8 @@ def compare(a, b, perm=None):
         if isinstance(va, np.ndarray):
             if not isinstance(vb, np.ndarray):
                 return f"{k}: {type(vb).__name__} instead of a matrix"
+            if perm is not None and not k.endswith("_probe") and (len(perm) != len(va) or (len(perm) and perm.max() >= len(va))):
+                return f"{k}: {len(va)} rows where {len(perm)} rows are retained"
             want = va[perm] if (perm is not None and not k.endswith("_probe")) else va
             if want.shape != vb.shape:
                 return f"{k}: shape {vb.shape} vs {want.shape}"
@@ -95,8 +97,16 @@ def reindexed(df, rng, which):
         out.index = pd.RangeIndex(n - 1, -1, -1)
     elif which == 3:
         out.index = pd.MultiIndex.from_arrays([np.arange(n) % 3, np.arange(n)[::-1]], names=["a", "b"])
-    else:
+    elif which == 4:
         out.index = pd.date_range("2020-01-01", periods=n, freq="D")[::-1]
+    elif which == 5:  # labels that are missing values themselves
+        lab = np.arange(n, dtype=float)
+        lab[:: max(1, n // 3)] = np.nan
+        out.index = pd.Index(lab)
+    elif which == 6:  # an index called like a column of the frame
+        out.index = pd.Index(np.arange(n)[::-1], name="x")
+    else:
+        out.index = pd.Index([None if i % 4 == 1 else f"k{i}" for i in range(n)], dtype=object, name="s")
     return out
 
 
@@ -193,8 +203,9 @@ def judge(case, m):
     run("row-permutation", df.iloc[perm], perm, "rows permuted (index labels kept)")
     perm2 = rng.permutation(n)
     run("row-permutation", df.iloc[perm2].reset_index(drop=True), perm2, "rows permuted, index reset")
-    which = int(rng.integers(0, 5))
-    run("index-relabelling", reindexed(df, rng, which), None, ["non-unique ints", "strings", "reversed range", "MultiIndex", "datetimes"][which])
+    which = int(rng.integers(0, 8))
+    run("index-relabelling", reindexed(df, rng, which), None, ["non-unique ints", "strings", "reversed range", "MultiIndex", "datetimes",
+                                                               "NaN labels", "index named like a column", "None labels, named like a column"][which])
     cols = list(df.columns)
     rng.shuffle(cols)
     run("column-order", df[cols], None, "columns shuffled")
